@@ -158,19 +158,6 @@ Proof.
   replace (k <=? 0) with false by (symmetry; apply Z.leb_gt; lia). f_equal. apply IH. lia.
 Qed.
 
-Lemma fetch_all_rows uids : fetch_inline (S_ "1:*") uids = Some (label_from 1 uids).
-Proof.
-  unfold fetch_inline. change (split_byte (S_ "1:*") c_colon) with [S_ "1"; S_ "*"].
-  assert (B1 : fetch_bound (S_ "1") (-1) = Some 1) by reflexivity.
-  assert (B2 : forall t, fetch_bound (S_ "*") t = Some t) by reflexivity.
-  cbv beta iota. rewrite B1, B2. cbv zeta. change (1 =? -1) with false. cbv iota.
-  destruct (Z.of_nat (length uids) <? 1) eqn:E.
-  - apply Z.ltb_lt in E. destruct uids; [reflexivity | simpl in E; lia].
-  - apply Z.ltb_ge in E. unfold sql_limit_offset. change (1 - 1) with 0. rewrite zskipn_0.
-    replace (Z.of_nat (length uids) - 1 + 1 <? 0) with false by (symmetry; apply Z.ltb_ge; lia).
-    now rewrite zfirstn_all by lia.
-Qed.
-
 (** rank by COUNT(uid' <= uid) is the position, for strictly ascending uids *)
 Lemma ascending_lt x l : ascending (x :: l) -> forall y, In y l -> x < y.
 Proof.
